@@ -19,6 +19,16 @@ func runForkSuite(seed uint64, n int, out *Out, stats *Stats) {
 		w := NewWorld(id, seed*3010349+uint64(i), "honest", stats, out)
 		r := w.r
 		w.set.Limit = 1440
+		if i%8 == 5 {
+			layoutCase(w, id, i, out, stats)
+			out.Case(w.rec.Emit())
+			for k, d := range w.rec.Digests {
+				out.Digest(id, k, w.rec.OpKinds[k], d)
+			}
+			stats.Cases++
+			stats.Ops += len(w.rec.Ops)
+			continue
+		}
 		if i%4 == 3 {
 			isolationCase(w, id, i, out, stats)
 			out.Case(w.rec.Emit())
@@ -460,4 +470,120 @@ func engineStamp(set *Settings, boundary, trueNow int64) int64 {
 	}
 	e.Stop()
 	return ts
+}
+
+// layoutCase: the place of the reward inside a block is free (verification does not look at it; only
+// the pool puts it last). Three validators A (the host), B and C take turns on one chain; C's block,
+// which also carries a payment, is served with the reward moved to the front (a different but equally
+// valid block). After everybody holds it, C and B each produce the next block on the same tick: the
+// host must prefer the one whose validator waited longer, counting through the re-laid-out block.
+func layoutCase(w *World, id string, i int, out *Out, stats *Stats) {
+	r := w.r
+	mk := func(wl int) *Node {
+		n := NewNode(w.set, w.wallets[wl].Addr)
+		n.Pool.Validate(w.host.Chain.FirstBlockTimestamp())
+		return n
+	}
+	// A, A
+	w.tickAll()
+	w.rec.Validate(w.now)
+	w.tickAll()
+	w.rec.Validate(w.now)
+	B, C := mk(1), mk(2)
+	helperSync(B, w.now, []*Peer{honestPeer("10.0.0.1:10600", w.host)})
+	helperSync(C, w.now, []*Peer{honestPeer("10.0.0.1:10600", w.host)})
+	// a run of turns before C's block; who is last before C decides the ages
+	turns := [][]byte{[]byte("BA"), []byte("AB"), []byte("BAB"), []byte("B"), []byte("ABA")}[r.Intn(5)]
+	for _, t := range turns {
+		w.tickAll()
+		if t == 'A' {
+			w.rec.Validate(w.now)
+			helperSync(B, w.now, []*Peer{honestPeer("10.0.0.1:10600", w.host)})
+			helperSync(C, w.now, []*Peer{honestPeer("10.0.0.1:10600", w.host)})
+		} else {
+			B.Pool.Validate(w.now)
+			B.Log.Take()
+			w.rec.Update(w.now, []*Peer{honestPeer("10.0.0.2:10600", B)})
+			helperSync(C, w.now, []*Peer{honestPeer("10.0.0.2:10600", B)})
+		}
+	}
+	// C's block with a payment
+	w.tickAll()
+	var all []spendable
+	for _, wl := range w.wallets {
+		for _, u := range C.Ureg.Utxos(wl.Addr) {
+			v := u.Value(w.now, w.set.HalfLife, w.set.Base, w.set.ILimit)
+			if v > 3*w.set.Fee+30 {
+				all = append(all, spendable{u.TransactionId(), u.OutputIndex(), v, wl})
+			}
+		}
+	}
+	if len(all) > 0 {
+		u := all[r.Intn(len(all))]
+		tx := w.build(&txPlan{ins: []spendable{u}, outs: []*JOutput{{w.wallets[3].Addr, false, (u.value - w.set.Fee) / 2}, {u.owner.Addr, false, u.value - w.set.Fee - (u.value-w.set.Fee)/2 - 1}}, ts: w.now - 1})
+		C.Pool.AddTransaction(tx, "x", "y")
+		w.rec.noteTx(tx)
+	}
+	C.Pool.Validate(w.now)
+	C.Log.Take()
+	laid := MirrorBlocks(C.AllBlocks())
+	tip := laid[len(laid)-1]
+	moved := false
+	if n := len(tip.Transactions); n >= 2 && len(tip.Transactions[n-1].Inputs) == 0 {
+		tip.Transactions = append([]*JTx{tip.Transactions[n-1]}, tip.Transactions[:n-1]...)
+		moved = true
+	}
+	stats.Count(fmt.Sprintf("forks/layout reward-first=%v turns=%s", moved, string(turns)))
+	w.rec.Update(w.now, []*Peer{staticPeer("10.0.0.3:10600", laid, w.set.Limit)})
+	B2, C2 := mk(1), mk(2)
+	helperSync(B2, w.now, []*Peer{staticPeer("10.0.0.3:10600", laid, w.set.Limit)})
+	helperSync(C2, w.now, []*Peer{staticPeer("10.0.0.3:10600", laid, w.set.Limit)})
+	// the same tick: C again, and B
+	w.tickAll()
+	C2.Pool.Validate(w.now)
+	B2.Pool.Validate(w.now)
+	C2.Log.Take()
+	B2.Log.Take()
+	peers := []*Peer{honestPeer(fmt.Sprintf("10.9.%d.1:10600", i%250), C2), honestPeer(fmt.Sprintf("10.9.%d.2:10600", i%250), B2)}
+	if r.Chance(1, 2) {
+		peers[0], peers[1] = peers[1], peers[0]
+	}
+	res := w.rec.Update(w.now, peers)
+	stats.Mark(fmt.Sprintf("layout/%s/%v/%s", string(turns), moved, res[:indexOrLen(res, ':')]))
+	// model-free: both candidates are verified, equally long and on branches of one neighbor each; the
+	// host must end on the one whose validator waited at least as long (wherever the rewards sit)
+	waited := func(bs []*ledger.Block) int {
+		recipient := func(b *ledger.Block) string {
+			for _, t := range b.Transactions() {
+				if t.HasReward() {
+					return t.RewardRecipientAddress()
+				}
+			}
+			return ""
+		}
+		last := recipient(bs[len(bs)-1])
+		age := 0
+		for k := len(bs) - 2; k >= 0; k-- {
+			age++
+			if recipient(bs[k]) == last {
+				break
+			}
+		}
+		return age
+	}
+	cb, bb, after := C2.AllBlocks(), B2.AllBlocks(), w.host.AllBlocks()
+	if len(cb) == len(bb) && len(after) == len(cb) && len(cb) >= 3 {
+		wc, wb := waited(cb), waited(bb)
+		tipHash := blockHashHex(after[len(after)-1])
+		lo, hi := wc, wb
+		if lo > hi {
+			lo, hi = hi, lo
+		}
+		if (tipHash == blockHashHex(cb[len(cb)-1]) && wc < wb) || (tipHash == blockHashHex(bb[len(bb)-1]) && wb < wc) {
+			out.Violation("C06", id, fmt.Sprintf("not-longest-waiting\tof two verified candidates of %d blocks the host adopted the one whose validator waited %d blocks although the other's waited %d (turns %s, reward moved to the front of an earlier block: %v)", len(cb), lo, hi, string(turns), moved))
+		}
+	}
+	if w.rec.Mon != nil {
+		w.rec.Mon.CheckChain(w.host.AllBlocks(), "after the layout round")
+	}
 }
